@@ -195,6 +195,31 @@ func fieldsReset(c *Ctx, fn *ssa.Function, obj ssa.Value, named *types.Named, be
 	return out
 }
 
+// withinWrappers: fn is one of the designated wrappers, or an unexported
+// helper / closure every call site of which lies within one (a part split off a wrapper).
+func withinWrappers(fn *ssa.Function, allowed []string, depth int) bool {
+	if fn == nil || depth > 3 {
+		return false
+	}
+	for _, a := range allowed {
+		if a == fn.String() {
+			return true
+		}
+	}
+	if fn.Parent() != nil {
+		return withinWrappers(fn.Parent(), allowed, depth+1)
+	}
+	if !Eligible(fn) || len(sitesOf(fn)) == 0 {
+		return false
+	}
+	for _, s := range sitesOf(fn) {
+		if !withinWrappers(s.Parent(), allowed, depth+1) {
+			return false
+		}
+	}
+	return true
+}
+
 func checkC08(c *Ctx) {
 	c.Rule("R8.1", "reset completeness: every mutable field of a pooled struct is neutralised before Put or reassigned after Get", 7)
 	c.Rule("R8.2", "Pool.Get/Put are called only from the designated wrappers", 9)
@@ -235,12 +260,7 @@ func checkC08(c *Ctx) {
 			}
 			for k, cl := range calls {
 				fn := cl.Parent().String()
-				ok := false
-				for _, a := range allowed {
-					if a == fn {
-						ok = true
-					}
-				}
+				ok := withinWrappers(cl.Parent(), allowed, 0)
 				c.Check(ok, "R8.2", pd.name, what+"#"+itoa(k+1)+"@"+fn, cl.Pos(), "Pool.%s on %s is called from %s (designated wrapper(s): %v)", what, pd.name, fn, allowed)
 			}
 		}
